@@ -602,6 +602,13 @@ class Kernel(Module):
         for sub_module_name, sub_module in self.named_sub_kernels():
             new_kernel.__setattr__(sub_module_name, sub_module.__getitem__(index))
 
+        if not any(True for _ in self.named_parameters(recurse=False)) and not any(
+            name != "active_dims" for name, _ in self.named_buffers(recurse=False)
+        ):
+            # A kernel without tensors of its own (e.g. a MultitaskKernel constructed with a batch_shape) still has to
+            # report the indexed batch shape
+            new_kernel.batch_shape = torch.empty(*self.batch_shape, 0)[index].shape[:-1]
+
         return new_kernel
 
 
